@@ -5,7 +5,7 @@
    labels: which thread moves, which ready select case is taken, when the context
    ends); [run] skips labels that are not enabled. *)
 From Coq Require Import List ZArith Bool Arith Permutation.
-From GZ Require Import C10.Model C10.Proofs C10.ProofsT C10.ProofsQ C10.ProofsM C10.ProofsS C10.ProofsC.
+From GZ Require Import C10.Model C10.Proofs C10.ProofsT C10.ProofsQ C10.ProofsM C10.ProofsS C10.ProofsC C10.ProofsP.
 Import ListNotations.
 
 (* At most [workers] mapper functions run at any time (and the pool never holds more
@@ -214,6 +214,33 @@ Theorem value_commit_not_cancelled : forall c sched b s' v,
   g_cancels s = [] /\ reterr s = None /\ cstate s = CNone.
 Proof. exact value_commit_not_cancelled_l. Qed.
 Print Assumptions value_commit_not_cancelled.
+
+(* ---- promptness: the call does not wait for user functions that ignore a cancellation ---- *)
+(* [lib_stuck c s]: no LIBRARY step is enabled in s - the only things that could still happen are
+   releases of user functions parked before their next action (or before returning) and the context
+   event.  Once a cancel call has stored its error and the generator has ended, in every such state
+   the caller has returned: its return needs library steps only, whatever the parked mapper and
+   reducer functions do (for ever).  Every variant, both output protocols.  (The generator is
+   excepted by the code: cancel waits in drain(source) for it.) *)
+Theorem prompt_after_cancel : forall c sched,
+  let s := run c (init c) sched in
+  lib_stuck c s = true -> genpc s = Fin -> reterr s <> None -> exists o, mainpc s = MFin o.
+Proof. exact prompt_after_cancel_l. Qed.
+Print Assumptions prompt_after_cancel.
+
+(* the same once the caller has taken the context branch of its select ... *)
+Theorem prompt_after_ctx_branch : forall c sched,
+  let s := run c (init c) sched in
+  lib_stuck c s = true -> genpc s = Fin -> In ECtx (g_cancels s) -> exists o, mainpc s = MFin o.
+Proof. exact prompt_after_ctx_branch_l. Qed.
+Print Assumptions prompt_after_ctx_branch.
+
+(* ... which a caller that is still at its select does as soon as the context has ended *)
+Theorem ctx_seen_at_select : forall c sched,
+  let s := run c (init c) sched in
+  lib_stuck c s = true -> foreach c = false -> ctx_done s = true -> mainpc s <> MSelect.
+Proof. exact ctx_seen_at_select_l. Qed.
+Print Assumptions ctx_seen_at_select.
 
 (* ---- termination ---- *)
 (* every step of every thread, and the context event, strictly decreases [measure] (any variant,
